@@ -1,6 +1,6 @@
 (* Model/Ctor.v — hand model of the constructors of symmray.abelian_core.AbelianArray
    (__init__, from_fill_fn, from_blocks, from_dense) and of to_dense
-   (abelian and fermionic).  Definitions only, all computable; tied to the
+   (abelian and fermionic), on the tree with fix 28a1fb2 (signed charge inference).  Definitions only, all computable; tied to the
    implementation by the cases.v correspondence of harness/c16.py.
    `None` = the Python code raises. *)
 From SV Require Import Base.Prelude Base.Sym Base.Tensor Model.Sectors Model.Array Model.Arith
@@ -25,15 +25,20 @@ Section Ctor.
   (* `charge=None` -> symmetry.combine()  (from_fill_fn / from_blocks / from_dense) *)
   Definition charge_or_ident (q : option Ch) : Ch := match q with Some c => c | None => ident G end.
 
-  (* AbelianArray.__init__: the charge is inferred from the FIRST stored sector by the
-     plain (unsigned) combine( *sector), or is the identity when nothing is stored *)
-  Definition init_charge (q : option Ch) (blks : list (sector * tensor R)) : Ch :=
+  (* AbelianArray.__init__: with `charge` omitted the charge is inferred from the FIRST stored
+     sector as the SIGNED combination combine( *(sign(c, ix.dual) for c, ix in zip(sector, indices)))
+     (fix 28a1fb2; before it the plain combine( *sector) ignored the index directions), or is the
+     identity when nothing is stored *)
+  Definition init_charge (ixs : list idx) (q : option Ch) (blks : list (sector * tensor R)) : Ch :=
     match q with
     | Some c => c
-    | None => match blks with [] => ident G | sb :: _ => combine G (fst sb) end
+    | None => match blks with
+              | [] => ident G
+              | sb :: _ => combine G (signed_sector G false (fst sb) (map (idual G) ixs))
+              end
     end.
   Definition init_array (ixs : list idx) (q : option Ch) (blks : list (sector * tensor R)) : arr :=
-    mkA G R ixs (init_charge q blks) blks.
+    mkA G R ixs (init_charge ixs q blks) blks.
 
   (* from_fill_fn: new = cls(indices, charge); for sector in new.gen_valid_sectors():
        new.blocks[sector] = fill_fn(new.get_block_shape(sector)) *)
